@@ -36,4 +36,5 @@ class C08(Prop):
     ]
     assumptions = ["namespace and user data travel in the same snapshot file as configurations (C01/C07 compare every "
                    "component's records); the cluster scenario observes configurations only",
-                   "settling times (12 s after a first start, 9 s after a restart) are generous bounds, not proved ones"]
+                   "a started node is waited for until raft's own metrics say it has applied what the others have (bounded by 90 s), "
+                   "then 3 s for the components to load; bounds, not proved ones"]
